@@ -153,13 +153,14 @@ def parse(tb, toks, recover=True, max_steps=None):
     toks = list(toks) + [g.EOF]
     st = [0]; vals = []; p = 0
     res = Result(); res.actions = []; res.reductions = []; res.errors = []; res.ok = False; res.tree = None
-    res.steps = 0; res.consumed_in_recovery = []; res.popped = []; res.lexerr = None; res.hang = False; res.rr = False; res.maxp = -1; res.lexpoints = []
+    res.steps = 0; res.consumed_in_recovery = []; res.popped = []; res.lexerr = None; res.hang = False; res.rr = False; res.maxp = -1; res.lexpoints = []; res.maxdepth = 1
     recovering = False; consuming = False
     limit = max_steps or (50 * len(toks) + 1000) * 4
     while True:
         res.steps += 1
         if res.steps > limit:
             res.hang = True; return res
+        if len(st) > res.maxdepth: res.maxdepth = len(st)
         t = g.ERR if recovering else toks[p]
         if not recovering and p > res.maxp:
             res.maxp = p; res.lexpoints.append((len(res.actions), p))
